@@ -3,6 +3,7 @@ package payment
 import (
 	"context"
 	"math/big"
+	"strings"
 
 	"github.com/vipnode/vipnode/v2/ethnode"
 	"github.com/vipnode/vipnode/v2/internal/verifapi"
@@ -20,8 +21,10 @@ const (
 	altParams
 	altGarbage
 	altEmpty
-	altStale   // correctly signed but nonce not above the identity's high-water mark
-	altOldForm // vipnode_update only: deprecated signature that does not cover PeerInfo
+	altStale    // correctly signed but nonce not above the identity's high-water mark
+	altOldForm  // vipnode_update only: deprecated signature that does not cover PeerInfo
+	altSpelling // the honest signature, presented under another spelling of the same identity
+	altExpired  // correctly signed, but the nonce is older than the freshness window (a captured request sent again much later)
 	altCount
 )
 
@@ -38,6 +41,17 @@ func verifSignedCall(w *verifWorld, ep int, alt int, svc *pool.VerifHost) error 
 	if alt == altNonce {
 		signNonce = verifapi.Int64("signednonce")
 		verifapi.Assume(signNonce != nonce)
+	}
+	if alt == altExpired {
+		// the identity has a saved mark; the request's own nonce is too old to be accepted
+		id := node
+		if ep >= 5 {
+			id = wal
+		}
+		w.db.CheckAndSaveNonce(id, nonce)
+		w.t0 = verifapi.Snapshot(w.state())
+		nonce = verifapi.Now().UnixNano() - int64(store.ExpireNonce) - 1000
+		signNonce = nonce
 	}
 	if alt == altStale {
 		// the identity already used a higher nonce
@@ -59,6 +73,17 @@ func verifSignedCall(w *verifWorld, ep int, alt int, svc *pool.VerifHost) error 
 		}
 		return sigs.SignFor(identity, method, signNonce, args...)
 	}
+	// what the request names as its identity: the honest string, or (altSpelling) the same key
+	// spelled differently - the pool keys nonces, nodes, accounts and connections by this string
+	presentNode, presentWal := node, wal
+	if alt == altSpelling {
+		presentNode = "0x" + node
+		presentWal = "0x" + strings.ToLower(wal[2:])
+		if verifapi.Bool("uppercase") {
+			presentNode = strings.ToUpper(node)
+			presentWal = "0x" + strings.ToUpper(wal[2:])
+		}
+	}
 	signer := func(honest, dishonest string) string {
 		if alt == altIdentity {
 			return dishonest
@@ -72,7 +97,7 @@ func verifSignedCall(w *verifWorld, ep int, alt int, svc *pool.VerifHost) error 
 		if alt == altParams {
 			signed.Payout = otherWal
 		}
-		_, err := w.p.Connect(ctx, mk("vipnode_connect", signer(node, other), signed), node, nonce, req)
+		_, err := w.p.Connect(ctx, mk("vipnode_connect", signer(node, other), signed), presentNode, nonce, req)
 		return err
 	case 1: // vipnode_update
 		req := pool.UpdateRequest{PeerInfo: pool.VerifPeerInfos(other), BlockNumber: 7}
@@ -81,10 +106,10 @@ func verifSignedCall(w *verifWorld, ep int, alt int, svc *pool.VerifHost) error 
 			signed.BlockNumber = 8
 		}
 		if alt == altOldForm {
-			_, err := w.p.Update(ctx, pool.VerifSignOldUpdate(node, nonce, req.Peers, req.BlockNumber), node, nonce, req)
+			_, err := w.p.Update(ctx, pool.VerifSignOldUpdate(node, nonce, req.Peers, req.BlockNumber), presentNode, nonce, req)
 			return err
 		}
-		_, err := w.p.Update(ctx, mk("vipnode_update", signer(node, other), signed), node, nonce, req)
+		_, err := w.p.Update(ctx, mk("vipnode_update", signer(node, other), signed), presentNode, nonce, req)
 		return err
 	case 2: // vipnode_peer
 		req := pool.PeerRequest{Num: 1}
@@ -92,7 +117,7 @@ func verifSignedCall(w *verifWorld, ep int, alt int, svc *pool.VerifHost) error 
 		if alt == altParams {
 			signed.Num = 2
 		}
-		_, err := w.p.Peer(ctx, mk("vipnode_peer", signer(node, other), signed), node, nonce, req)
+		_, err := w.p.Peer(ctx, mk("vipnode_peer", signer(node, other), signed), presentNode, nonce, req)
 		return err
 	case 3: // vipnode_host
 		req := pool.HostRequest{Kind: "geth", Payout: wal}
@@ -100,7 +125,7 @@ func verifSignedCall(w *verifWorld, ep int, alt int, svc *pool.VerifHost) error 
 		if alt == altParams {
 			signed.Payout = otherWal
 		}
-		_, err := w.p.Host(ctx, mk("vipnode_host", signer(node, other), signed), node, nonce, req)
+		_, err := w.p.Host(ctx, mk("vipnode_host", signer(node, other), signed), presentNode, nonce, req)
 		return err
 	case 4: // vipnode_client
 		req := pool.ClientRequest{Kind: "geth", NumHosts: 1}
@@ -108,7 +133,7 @@ func verifSignedCall(w *verifWorld, ep int, alt int, svc *pool.VerifHost) error 
 		if alt == altParams {
 			signed.NumHosts = 2
 		}
-		_, err := w.p.Client(ctx, mk("vipnode_client", signer(node, other), signed), node, nonce, req)
+		_, err := w.p.Client(ctx, mk("vipnode_client", signer(node, other), signed), presentNode, nonce, req)
 		return err
 	case 5: // pool_addNode
 		arg := node
@@ -116,13 +141,13 @@ func verifSignedCall(w *verifWorld, ep int, alt int, svc *pool.VerifHost) error 
 		if alt == altParams {
 			signedArg = other
 		}
-		return w.pay.AddNode(ctx, mk("pool_addNode", signer(wal, otherWal), signedArg), wal, nonce, arg)
+		return w.pay.AddNode(ctx, mk("pool_addNode", signer(wal, otherWal), signedArg), presentWal, nonce, arg)
 	default: // pool_withdraw
 		if alt == altParams {
 			// no parameters to alter: sign with a spurious extra argument
-			return w.pay.Withdraw(ctx, sigs.SignFor(wal, "pool_withdraw", signNonce, "extra"), wal, nonce)
+			return w.pay.Withdraw(ctx, sigs.SignFor(wal, "pool_withdraw", signNonce, "extra"), presentWal, nonce)
 		}
-		return w.pay.Withdraw(ctx, mk("pool_withdraw", signer(wal, otherWal)), wal, nonce)
+		return w.pay.Withdraw(ctx, mk("pool_withdraw", signer(wal, otherWal)), presentWal, nonce)
 	}
 }
 
@@ -161,7 +186,7 @@ func VerifC04Endpoint() {
 	if alt == altOldForm && ep != 1 {
 		verifapi.Assume(false)
 	}
-	if alt == altStale {
+	if alt == altStale || alt == altExpired {
 		verifapi.Assume(false) // stale nonces are C05/C06
 	}
 	svc := &pool.VerifHost{Name: "conn", Addr: "192.0.2.9:1"}
@@ -192,7 +217,7 @@ func VerifC04Endpoint() {
 func VerifC06Refused() {
 	w := verifEndpointWorld(true)
 	ep := verifapi.Choose("endpoint", 7)
-	kinds := []int{altIdentity, altGarbage, altEmpty, altNonce, altStale}
+	kinds := []int{altIdentity, altGarbage, altEmpty, altNonce, altStale, altSpelling, altExpired}
 	alt := kinds[verifapi.Choose("refusal", len(kinds))]
 	svc := &pool.VerifHost{Name: "conn", Addr: "192.0.2.9:1"}
 	w.t0 = verifapi.Snapshot(w.state())
@@ -206,7 +231,7 @@ func VerifC06Refused() {
 	verifapi.Assert(err != nil, "c06.refused-request-errors")
 	verifapi.Assert(verifapi.Same(w.t0, verifapi.Snapshot(w.state())), "c06.refused-request-leaves-no-trace")
 	verifapi.Assert(w.hostCalls() == 0 && len(svc.Calls) == 0, "c06.refused-request-calls-no-host")
-	if alt == altStale {
+	if alt == altStale || alt == altExpired {
 		return
 	}
 	// the legitimate owner's next request, with a smaller but fresh nonce
